@@ -71,3 +71,28 @@ def pick(sel, pool):
         if sel == i:
             return pool[i]
     return pool[-1]
+
+
+def contract_free(fn):
+    """Return a copy of harness function `fn` compiled WITHOUT its docstring (hence without its PEP316 contract).
+
+    CrossHair enforces the contracts of functions called from the function under analysis and silently drops every path on
+    which a callee's own postcondition fails ("internal failed post condition") - which would hide exactly the violations a
+    generated wrapper (case split via `bind`, reachability twin) is looking for. CrossHair reads contracts from the SOURCE,
+    so clearing __doc__ is not enough: the copy is recompiled from the source with the docstring removed."""
+    import ast
+    import inspect
+    import sys
+    import textwrap
+    mod = sys.modules[fn.__module__]
+    tree = ast.parse(textwrap.dedent(inspect.getsource(fn)))
+    fd = tree.body[0]
+    fd.name = fn.__name__ + '__impl'
+    fd.decorator_list = []
+    if fd.body and isinstance(fd.body[0], ast.Expr) and isinstance(getattr(fd.body[0], 'value', None), ast.Constant) \
+            and isinstance(fd.body[0].value.value, str):
+        fd.body = fd.body[1:] or [ast.Pass()]
+    ast.increment_lineno(tree, fn.__code__.co_firstlineno - 1)
+    ns = {}
+    exec(compile(tree, f'<contract-free copy of {fn.__module__}.{fn.__name__}>', 'exec'), mod.__dict__, ns)  # noqa: S102
+    return ns[fd.name]
